@@ -98,7 +98,24 @@ func (s *BadSmellListener) EnterInterfaceDeclaration(ctx *InterfaceDeclarationCo
 	currentClz = ctx.Identifier().GetText()
 }
 
+// interfaceMethodCtx is what `void m();` and `<T> void m();` in an interface body have in common.
+type interfaceMethodCtx interface {
+	GetStart() antlr.Token
+	GetStop() antlr.Token
+	AllInterfaceMethodModifier() []IInterfaceMethodModifierContext
+	InterfaceCommonBodyDeclaration() IInterfaceCommonBodyDeclarationContext
+}
+
 func (s *BadSmellListener) EnterInterfaceMethodDeclaration(ctx *InterfaceMethodDeclarationContext) {
+	s.enterInterfaceMethod(ctx)
+}
+
+// an interface method with type parameters of its own is a method of the interface as well
+func (s *BadSmellListener) EnterGenericInterfaceMethodDeclaration(ctx *GenericInterfaceMethodDeclarationContext) {
+	s.enterInterfaceMethod(ctx)
+}
+
+func (s *BadSmellListener) enterInterfaceMethod(ctx interfaceMethodCtx) {
 	startLine := ctx.GetStart().GetLine()
 	startLinePosition := ctx.InterfaceCommonBodyDeclaration().GetStart().GetColumn()
 	stopLine := ctx.GetStop().GetLine()
